@@ -1679,12 +1679,17 @@ func ZipAll[T any]() func(Observable[Observable[T]]) Observable[[]T] {
 		return NewObservableWithContext(func(subscriberCtx context.Context, destination Observer[[]T]) Teardown {
 			innerSub := NewSubscription(nil)
 
+			// Only read and written by the callbacks of the outer observer, which are serialized.
+			hasInnerSources := false
+
 			// First, we consume the high-order observable...
 			outerSub := ToSlice[Observable[T]]()(sources).
 				SubscribeWithContext(
 					subscriberCtx,
 					NewObserverWithContext(
 						func(ctx context.Context, flattenSources []Observable[T]) {
+							hasInnerSources = len(flattenSources) > 0
+
 							innerSub.Add(
 								// ...then we zip all inner observables.
 								zipAllInnerSubscriptions(ctx, flattenSources, destination),
@@ -1694,7 +1699,13 @@ func ZipAll[T any]() func(Observable[Observable[T]]) Observable[[]T] {
 							destination.ErrorWithContext(ctx, err)
 						},
 						func(ctx context.Context) {
-							destination.CompleteWithContext(ctx)
+							// The completion of the outer observable only means that the list of inner
+							// observables is known: the stream completes when an inner observable does
+							// (see zipInnerSubscription). Completing here cut asynchronous inner
+							// observables before they could emit anything.
+							if !hasInnerSources {
+								destination.CompleteWithContext(ctx)
+							}
 						},
 					),
 				)
